@@ -68,7 +68,11 @@ def run_set(placement, order=None):
     for d in dirs:
         os.makedirs(os.path.join(base, d), exist_ok=True)
     for p, t in items:
-        e2e.write_tree(base, {p: t})
+        if isinstance(t, tuple):   # ('link', target): a symbolic link
+            os.makedirs(os.path.dirname(os.path.join(base, p)), exist_ok=True)
+            os.symlink(t[1], os.path.join(base, p))
+        else:
+            e2e.write_tree(base, {p: t})
     rc, so, se = e2e.run_binary(['--dry-run', '--no-kmsg-log', os.path.join(base, 'out')], ':'.join(os.path.join(base, d) for d in dirs))
     _, plist = e2e.split_dry_run(so)
     shutil.rmtree(base, ignore_errors=True)
@@ -117,6 +121,11 @@ def oracle(ctx):
         for n in ('00-baddrop.container', 'zz-baddrop.container'):
             extra['d0/' + n] = '[Container]\nImage=localhost/baddrop\n'
             extra['d0/' + n + '.d/bad.conf'] = rnd.choice(['no equals sign\n', '[Unterminated\n', 'Key=before any section\n'])
+        # files that cannot be read at all: a dangling symbolic link and a directory named like a unit
+        if rnd.random() < 0.5:
+            extra['d0/zz-ghost.container'] = ('link', 'no-such-target')
+        else:
+            extra['d0/zz-isdir.volume'] = None
         spread = {}
         for n in names:
             d = rnd.choice(['d0/', 'd1/', 'd0/sub/', 'd2/deep/er/'])
@@ -164,6 +173,9 @@ def oracle(ctx):
                 fails.append(f'the failure of {b} is not logged with its path: {e2e.error_lines(r0[2])}')
         if r1[0] != 1:
             fails.append(f'exit status {r1[0]} although units with malformed drop-ins were added')
+        for ghost in ('zz-ghost.container', 'zz-isdir.volume'):
+            if 'd0/' + ghost in v[1] and not any('ERROR' in l and ghost in l for l in r1[2].split('\n')):
+                fails.append(f'{ghost} cannot be read but no error names it: {e2e.error_lines(r1[2])[:6]}')
         if r1[0] != 1 and any(n in ('zz-broken.container', 'zz-unknown.volume', 'zz-noimage.container', 'zz-dangling.container', 'zz-nosection.kube') for n in [os.path.basename(p) for p in v[1]]):
             fails.append(f'exit status {r1[0]} although a failing file was added')
         if r4[0] != 1:
